@@ -939,12 +939,18 @@ func trickleAgainstStalledStore(c *ctx, r Rng, i int) {
 // turn (create, every write, close, update); whatever fails, every accepted batch is answered exactly once.
 func faultAtEveryFlushCall(c *ctx) {
 	for _, parts := range [][]string{{"a"}, {"a", "b"}} {
-		for k := 1; k <= 14; k++ {
+		// k: the failing call; k > 14: call k-14 AND the call after it fail (the cleanup of a failure fails too:
+		// Abort after a failed Write, TombstoneFile after a failed Update, ...)
+		for k := 1; k <= 28; k++ {
 			cfg := bs.DefaultBloomSearchEngineConfig()
 			cfg.PartitionFunc = partitionFunc("p")
 			cfg.MaxBufferedTime = time.Hour
 			store := NewMemStore()
-			store.SetFaults([]string{"create", "write", "close", "update"}, k)
+			if k <= 14 {
+				store.SetFaults([]string{"create", "write", "close", "update"}, k)
+			} else {
+				store.SetFaults([]string{"create", "write", "close", "abort", "update", "tombstone"}, k-14, k-13)
+			}
 			eng, err := bs.NewBloomSearchEngine(cfg, &FaultMeta{MetaStore: bs.NewMemoryMetaStore(), s: store}, store)
 			if err != nil {
 				fatal("engine: %v", err)
@@ -960,12 +966,25 @@ func faultAtEveryFlushCall(c *ctx) {
 				dones = append(dones, d)
 				eng.IngestRows(context.Background(), rows, d)
 			}
-			eng.Flush(context.Background())
+			// bounded: Flush waits for its own acknowledgement, and a flush whose waiters are never answered must
+			// not hang the check (the goroutine is abandoned then)
+			flushed := make(chan struct{})
+			go func() { eng.Flush(context.Background()); close(flushed) }()
+			flushReturned := true
+			select {
+			case <-flushed:
+			case <-time.After(5 * time.Second):
+				flushReturned = false
+			}
 			ctx, cancel := context.WithTimeout(context.Background(), 10*time.Second)
 			serr := eng.Stop(ctx)
 			cancel()
 			c.r.Case(true, fmt.Sprint("fault-at-flush-call", parts, k))
 			c.r.Hit("pipeline.fault-at-flush-call")
+			if !flushReturned {
+				c.r.Add(Finding{Kind: "violation", Check: "unanswered-flush", Detail: fmt.Sprintf("with store call #%d of a %d-partition flush failing (k > 14: calls k-14 and k-13), Flush did not return within 5s: its acknowledgement was never delivered", k, len(parts)),
+					Replay: map[string]any{"partitions": parts, "failing_call": k}})
+			}
 			for i, d := range dones {
 				if n := len(d); n != 1 && serr == nil {
 					check := "answered-twice"
